@@ -281,7 +281,7 @@ def run_population(payload):
                 out["universe"] = describe(universe)
             ho["outcomes"] = [apply_op(butler, universe, conv, objs, o) for o in h["ops"]]
             ho["tables"], ho["overlaps"] = dump(root, universe, conv, objs)
-            ho["queries"] = run_queries(butler, universe, conv, objs, payload["groups"])
+            ho["queries"] = run_queries(butler, universe, conv, objs, h.get("groups", payload["groups"]))
             if payload.get("records_query", True):
                 ho["records"] = records_via_query(butler, universe, conv, objs)
         except Exception as exc:  # noqa: BLE001
